@@ -289,7 +289,7 @@ def run(ctx):
     q = ctx.tier == 'quick'
     # --- AES tables + vectors (B)
     btasks = [dict(mod='fam.aescheck', fn='tables', kw={}),
-              dict(mod='fam.aescheck', fn='full_vectors', kw=dict(n=3 if q else 20, seed=ctx.seed))]
+              dict(mod='fam.aescheck', fn='full_vectors', kw=dict(n=3 if q else 60, seed=ctx.seed))]
     lf_bw = [1, 2, 7, 32, 64, 126, 127, 128, 200] + ([] if q else [256])
     for bw in lf_bw:
         btasks.append(dict(mod='fam.prngcheck', fn='lfsr_protocol', kw=dict(bitwidth=bw, seed=ctx.seed + 1)))
